@@ -1,5 +1,5 @@
 (** C07 -- Request dispatchers never deadlock. *)
-From Verif Require Import Base.Prelude M1.Client M1.ClientProofs M1.ClientOwn M1.Server M1.ServerInv.
+From Verif Require Import Base.Prelude M1.Client M1.ClientProofs M1.ClientOwn M1.ClientWake M1.Server M1.ServerInv.
 
 (** Client dispatcher, EVERY schedule (possible since the repairs F9 / F18: a completion never waits for room in the ready
     channel, and F34: the timer is never waited for): the message pump never blocks for good and never panics,
@@ -30,3 +30,37 @@ Print Assumptions C07_client_S0_nonvacuous.
 Theorem C07_server_pump_never_stuck : forall cap d ls, Forall wf_slab ls -> Server.pumpStuck (srun ls (sinit cap d)) = false.
 Proof. exact s_pump_never_stuck_S1. Qed.
 Print Assumptions C07_server_pump_never_stuck.
+
+(** Client dispatcher, EVERY schedule: no lost wake-up.  Whenever the endpoint is running, connected (not paused), has
+    queued requests and nothing outstanding, a wake-up token is pending for the message pump ... *)
+Theorem C07_client_no_lost_wakeup : forall c t ls, Forall wf_lab ls ->
+  let s := run ls (init c t) in
+  started s = true -> closing s = false -> paused s = false -> q s <> [] -> pend s = 0 ->
+  1 <= Client.reqC s \/ 1 <= Client.readyC s.
+Proof. exact no_lost_wakeup_S1. Qed.
+Print Assumptions C07_client_no_lost_wakeup.
+
+(** ... which finds the pump ready to dispatch (or a ready token on its way) ... *)
+Theorem C07_client_ready_or_token : forall c t ls, Forall wf_lab ls ->
+  let s := run ls (init c t) in
+  started s = true -> closing s = false -> pend s = 0 -> Client.rdy s = true \/ 1 <= Client.readyC s.
+Proof. exact ready_or_token_S1. Qed.
+Print Assumptions C07_client_ready_or_token.
+
+(** ... so a quiescent state of a running, connected endpoint (no token left) has an empty queue or a request outstanding:
+    nothing is accepted and then forgotten.  With [C07_client_pump_never_stuck] this is the dispatcher's freedom from
+    deadlock up to the fairness of the Go scheduler. *)
+Theorem C07_client_quiescent_means_served : forall c t ls, Forall wf_lab ls ->
+  let s := run ls (init c t) in
+  started s = true -> closing s = false -> paused s = false -> Client.reqC s = 0 -> Client.readyC s = 0 ->
+  q s = [] \/ pend s <> 0.
+Proof. exact quiescent_means_served_S1. Qed.
+Print Assumptions C07_client_quiescent_means_served.
+
+Theorem C07_client_wakeup_premises_met :
+  let s1 := run [Start; Send 1 true] (init 0 0) in
+  let s2 := run [Start; Send 1 true; Send 2 true; PumpReq; Reply 1 0] (init 0 0) in
+  (started s1 = true /\ closing s1 = false /\ paused s1 = false /\ q s1 = [1] /\ pend s1 = 0 /\ Client.reqC s1 = 1) /\
+  (q s2 = [2] /\ pend s2 = 0 /\ Client.rdy s2 = false /\ Client.readyC s2 = 1).
+Proof. exact wake_premises_met. Qed.
+Print Assumptions C07_client_wakeup_premises_met.
